@@ -9,7 +9,7 @@ checks=("$@")
 out=/verif/seeded/$name
 mkdir -p $out
 cp $src/patch.diff $out/patch.diff
-demo=$(ls $src/tests/seeded*_c*.rs | head -1)
+demo=$(ls $src/tests/seeded*.rs | head -1)
 cp $demo $out/
 cp $src/NOTES.md $out/NOTES.md 2>/dev/null || true
 if [ "${SEED_PHASE:-both}" != "check" ]; then
@@ -37,7 +37,7 @@ git -C /repo status --short | grep -q . && { echo "/repo is not clean"; exit 2; 
 git -C /repo apply $out/patch.diff || { echo "cannot apply to /repo"; exit 2; }
 declare -A res
 for c in "${checks[@]}"; do
-  o=$(./check $c 2>&1 | grep -E "^(OK|VIOLATION|KNOWN)" | head -1 | cut -c1-200)
+  o=$(./check $c 2>&1 | grep -E "^(OK|VIOLATION)" | tail -1 | cut -c1-200)
   res[$c]="$o"; echo "  $c: $o"
 done
 git -C /repo checkout -- .
